@@ -1,5 +1,7 @@
 //! Byte-frequency rankers for C10/C19: arbitrary `u8 -> u8` tables.
 
+#[allow(unused_imports)]
+use crate::prelude::*;
 use crate::util::Rng;
 use memchr::arch::all::packedpair::HeuristicFrequencyRank;
 
